@@ -391,8 +391,14 @@ func (b *SpinBarrier) Wait() {
 		atomic.StoreInt32(&b.go_, 1)
 		return
 	}
+	// more parties than processors: the spinners must hand their processor on quickly, or (without asynchronous
+	// preemption) the late parties wait for millions of iterations each
+	lim := 1 << 22
+	if int(b.n) > runtime.GOMAXPROCS(0) {
+		lim = 1 << 8
+	}
 	for i := 0; atomic.LoadInt32(&b.go_) == 0; i++ {
-		if i > 1<<22 {
+		if i > lim {
 			runtime.Gosched()
 		}
 	}
